@@ -213,6 +213,8 @@ class Executor:
         self.feas_timeout_ms = 400
         self.hint_mod = None
         self.opaque = []             # regexes of callees treated as uninterpreted pure functions
+        self._divs = {}
+        self.div_lemma = False
 
     # ------------------------------------------------------------------ fresh values
     def add_invariant(self, key, c):
@@ -496,6 +498,19 @@ class Executor:
             return Prim(ty, x - y)
         if op in ("Mul", "MulUnchecked"):
             return Prim(ty, x * y)
+        if op in ("Div", "Rem") and not signed and getattr(self, "div_lemma", False) and z3.is_bv_value(z3.simplify(y)) and not z3.is_bv_value(z3.simplify(x)):
+            # unsigned division by a constant: fresh quotient/remainder tied by the division lemma
+            # (a = q*d + r, r < d, q*d does not overflow) instead of a bit-blasted 64-bit divider
+            d = z3.simplify(y).as_long()
+            key = ("divlemma", x.get_id(), d)
+            if key not in self._divs:
+                n = len(self._divs)
+                q, r = z3.BitVec(f"q{n}", w), z3.BitVec(f"r{n}", w)
+                self._divs[key] = (q, r, x)
+                dv = z3.BitVecVal(d, w)
+                self.invariants.append(z3.And(x == q * dv + r, z3.ULT(r, dv), z3.ULE(q, x), z3.BVMulNoOverflow(q, dv, False)))
+            q, r, _ = self._divs[key]
+            return Prim(ty, q if op == "Div" else r)
         if op == "Div":
             return Prim(ty, x / y if signed else z3.UDiv(x, y))
         if op == "Rem":
@@ -1370,6 +1385,26 @@ def m_bool_then_some(ex, st, callee, args, dest_ty, frame, depth):
     return out
 
 
+def m_bool_then(ex, st, callee, args, dest_ty, frame, depth):
+    b = ex.as_prim(args[0]).e
+    out = []
+    e = st.simp(b)
+    opts = []
+    if not z3.is_false(e) and ex.feasible(st, b):
+        opts.append(True)
+    if not z3.is_true(e) and ex.feasible(st, z3.Not(b)):
+        opts.append(False)
+    for i, o in enumerate(opts):
+        s2 = st.fork() if i < len(opts) - 1 else st
+        s2.assume(b if o else z3.Not(b))
+        if o:
+            for s3, oc in ex.call_value(s2, args[1], [], "?", frame, depth):
+                out.append((s3, Outcome("ret", ex.mk_enum(dest_ty, "Some", [oc.value])) if oc.kind == "ret" else oc))
+        else:
+            out.append((s2, Outcome("ret", Enum(dest_ty, bv64(0), {}))))
+    return out
+
+
 def m_clone(ex, st, callee, args, dest_ty, frame, depth):
     r = args[0]
     if isinstance(r, Ref) or (isinstance(r, Lazy) and is_ref(r.ty)):
@@ -1474,6 +1509,17 @@ def m_int_method(ex, st, callee, args, dest_ty, frame, depth):
     if name == "unsigned_abs":
         uty = "u" + ty[1:]
         return _ret(st, Prim(uty, z3.If(x < 0, -x, x)))
+    if name == "wrapping_div":
+        out = []
+        zero = y == z3.BitVecVal(0, w)
+        if ex.feasible(st, zero):
+            s2 = st.fork()
+            s2.assume(zero)
+            out.append((s2, Outcome("panic", msg="wrapping_div by zero")))
+        if ex.feasible(st, z3.Not(zero)):
+            st.assume(z3.Not(zero))
+            out.append((st, Outcome("ret", Prim(ty, (x / y) if signed else z3.UDiv(x, y)))))   # bvsdiv wraps MIN / -1 to MIN
+        return out
     if name == "wrapping_rem":
         # panics on zero divisor; MIN % -1 == 0
         out = []
@@ -1486,6 +1532,37 @@ def m_int_method(ex, st, callee, args, dest_ty, frame, depth):
             st.assume(z3.Not(zero))
             out.append((st, Outcome("ret", Prim(ty, z3.SRem(x, y) if signed else z3.URem(x, y)))))
         return out
+    if name in ("saturating_sub", "saturating_add"):
+        if signed:
+            ext = z3.SignExt(1, x) - z3.SignExt(1, y) if name == "saturating_sub" else z3.SignExt(1, x) + z3.SignExt(1, y)
+            lo, hi = z3.BitVecVal(-(1 << (w - 1)), w + 1), z3.BitVecVal((1 << (w - 1)) - 1, w + 1)
+            r = z3.If(ext < lo, lo, z3.If(ext > hi, hi, ext))
+            return _ret(st, Prim(ty, z3.Extract(w - 1, 0, r)))
+        if name == "saturating_sub":
+            return _ret(st, Prim(ty, z3.If(z3.ULT(x, y), z3.BitVecVal(0, w), x - y)))
+        s_ = x + y
+        return _ret(st, Prim(ty, z3.If(z3.ULT(s_, x), z3.BitVecVal((1 << w) - 1, w), s_)))
+    if name in ("checked_add", "checked_sub", "checked_neg"):
+        if name == "checked_neg":
+            ovf = (x == z3.BitVecVal(1 << (w - 1), w)) if signed else (x != 0)
+            res = -x
+        else:
+            ext = z3.SignExt if signed else z3.ZeroExt
+            full = ext(1, x) + ext(1, y) if name == "checked_add" else ext(1, x) - ext(1, y)
+            res = z3.Extract(w - 1, 0, full)
+            ovf = ext(1, res) != full
+        out = []
+        if ex.feasible(st, ovf):
+            s2 = st.fork()
+            s2.assume(ovf)
+            out.append((s2, Outcome("ret", Enum(dest_ty, bv64(0), {}))))
+        if ex.feasible(st, z3.Not(ovf)):
+            st.assume(z3.Not(ovf))
+            out.append((st, Outcome("ret", ex.mk_enum(dest_ty, "Some", [Prim(ty, res)]))))
+        return out
+    if name in ("min", "max"):
+        lt = (x < y) if signed else z3.ULT(x, y)
+        return _ret(st, Prim(ty, z3.If(lt, x, y) if name == "min" else z3.If(lt, y, x)))
     if name == "abs":
         mn = z3.BitVecVal(1 << (w - 1), w)
         out = []
@@ -1646,6 +1723,7 @@ DEFAULT_MODELS = [
     (_rx(r"^(std::result::)?Result::<.*>::\w+(::<.*>)?$"), m_result_method),
     (_rx(r"^(std::option::)?Option::<.*>::\w+(::<.*>)?$"), m_option_method),
     (_rx(r"bool>::then_some::<|<impl bool>::then_some::<"), m_bool_then_some),
+    (_rx(r"<impl bool>::then::<"), m_bool_then),
     (_rx(r" as (std::clone::)?Clone>::clone$"), m_clone),
     (_rx(r" as (std::convert::)?Into<.*>>::into$"), m_into),
     (_rx(r" as (std::convert::)?From<.*>>::from$"), m_from_same),
@@ -1654,5 +1732,5 @@ DEFAULT_MODELS = [
     (_rx(r"^(std::rt::|core::panicking::)?(panic|panic_fmt|begin_panic|panic_display|panic_explicit)\b|::expect_failed$|::unwrap_failed$|^(core::)?panicking::panic"), m_panic),
     (_rx(r"^(std::mem::|core::mem::)?drop::<"), m_drop),
     (_rx(r"<impl f64>::(is_nan|is_normal|is_infinite|is_finite|abs)$"), m_fp_method),
-    (_rx(r"<impl (i64|i32|isize|u64|usize|u32|u8)>::(wrapping_add|wrapping_sub|wrapping_mul|wrapping_rem|wrapping_neg|wrapping_abs|unsigned_abs|abs)$"), m_int_method),
+    (_rx(r"<impl (i64|i32|isize|u64|usize|u32|u8)>::(wrapping_add|wrapping_sub|wrapping_mul|wrapping_rem|wrapping_div|wrapping_neg|wrapping_abs|unsigned_abs|abs|saturating_sub|saturating_add|checked_add|checked_sub|checked_neg|min|max)$"), m_int_method),
 ]
